@@ -133,13 +133,16 @@ CHECKS["C06"] = dict(
 CHECKS["C11"] = dict(
    text="Same interleaving model. Theorems in Properties_C11.v: every wait is timed (a thread that has not finished always has a move, in ANY state), no reachable state of any schedule "
         "is a deadlock while the consumer's script is unfinished (the consumer is always inside an operation whose pending primitive is enabled or timed), next() after the stop event is "
-        "immediate. Tie to the code: scheduler-driven lockstep with failing sources / map functions and repeated next() after errors and end of stream; deadlock under the scheduler or "
+        "immediate. NO LIVELOCK (ConcProg.v), for every reachable state of every interleaving without a reader-join timeout: a consumer waiting inside next() at its queue get, stop event unset, "
+        "always has a producer (reader, a worker or the sorter; for the Prefetcher the reader) that has not finished and whose next data-path primitive is enabled - the awaited entry is in flight "
+        "exactly once (coverage invariant) or the reader can produce it; after the terminal entry the next next() does not wait. BOUNDED WORK: a rank rho that no move of any thread increases, in any "
+        "state, and every successful data-path move strictly decreases. Tie to the code: scheduler-driven lockstep with failing sources / map functions and repeated next() after errors and end of stream; deadlock under the scheduler or "
         "an exhausted step budget is a hang; process workers SIGKILLed in map_fn or while idle, and real-time runs, under a per-call deadline. Oracle: errors surface at the failing "
         "position after the preceding items, never a clean StopIteration in their place; every call returns.",
    design="DESIGN.md 4 C11",
-   note="Trusted: Coq kernel + vm_compute; scheduler primitives; fairness of the random chooser; wall-clock deadlines (20 s per call) for process and real-time cases - partial: the full "
-        "bounded-fair termination theorem for next() is not proved, absence of deadlock is.",
-   technique="Coq proof (no deadlock, timed waits) over hand-written interleaving model + lockstep correspondence under a deterministic thread scheduler + deadline oracle with real SIGKILL")
+   note="Trusted: Coq kernel + vm_compute; scheduler primitives; fairness of the random chooser; wall-clock deadlines (20 s per call) for process and real-time cases. Proved: every wait timed, no livelock (a waiting consumer is always served), bounded work (rank). "
+        "Partial in this sense: the fair-scheduler step (a thread that can advance is eventually run) is the OS scheduler's and is not modelled; schedules with a reader-join timeout are D10's.",
+   technique="Coq proof (timed waits, no livelock over all interleavings, decreasing rank) over hand-written interleaving model + lockstep correspondence under a deterministic thread scheduler + deadline oracle with real SIGKILL")
 CHECKS["C12"] = dict(
    text="Same interleaving model. Theorems in Properties_C12.v: the semaphore accounting identity permits + in-flight = bound holds for every generation in EVERY reachable state of EVERY "
         "schedule (timeouts, join timeouts, resets, loads, errors included), hence pulled-but-unreturned items <= prefetch_factor / max_concurrent always; the single-owner clause is stated "
@@ -153,7 +156,7 @@ CHECKS["C12"] = dict(
 CHECKS["C17"] = dict(
    text="nodes: same interleaving model; theorems in Properties_C17.v: once an iterator's stop event is set, every move of its reader, workers and sorter strictly decreases a natural-number "
         "potential that no consumer step increases, and a thread that has not exited can always move - so the background threads terminate after boundedly many of their own steps, under every "
-        "schedule. Loader: process-table model SdlProcs.v with theorems for every history (at most two generations alive, nothing alive once unreferenced, exhaustion releases non-persistent "
+        "schedule; _shutdown's join does not return while the joined thread is alive (only the join's own timeout passes it), completion is reported only when every remaining thread is dead, and a dead thread stays dead. Loader: process-table model SdlProcs.v with theorems for every history (at most two generations alive, nothing alive once unreferenced, exhaustion releases non-persistent "
         "workers, persistent workers reused). Tie to the code: scheduler-driven lockstep in which, after the consumer's script ends, the remaining threads are run to completion (none may "
         "survive); real StatefulDataLoader histories with a census of live worker pids after every operation compared with the process-table model; real-time nodes census of threads/children.",
    design="DESIGN.md 4 C17",
